@@ -150,6 +150,12 @@ func c10Job(raw json.RawMessage) (any, error) {
 			removed.Handle(it.Pattern+"/zz", hv.Route("h2"), nil, "GET")
 			removed.Remove(it.Pattern)
 			routers = append(routers, rt{"removed-again(+longer route below)", removed, false})
+			removedByName := mk("")
+			removedByName.Handle(it.Pattern, hv.Route("h"), nil, "GET", "POST")
+			removedByName.Handle(it.Pattern+"/zz", hv.Route("h2"), nil, "GET")
+			removedByName.Remove(it.Pattern, "GET")
+			removedByName.Remove(it.Pattern, "POST", "HEAD")
+			routers = append(routers, rt{"methods-removed-by-name(+longer route below)", removedByName, false})
 			structural := mk("")
 			if _, bad := Guard(func() {
 				structural.Handle(it.Pattern+"/q1", hv.Route("h1"), nil, "GET")
@@ -227,6 +233,24 @@ func c10Job(raw json.RawMessage) (any, error) {
 					out.Evals++
 					if got := res(s, err, pv, bad); got != wantD && !(it.Pattern == "" || post == "" && false) {
 						rep("C10.facade", "prefix-url-differs", fmt.Sprintf("%s via Prefix(%q).URL(%q) %s", d.name, pre, post, label), got, wantD)
+					}
+				}
+				// a prefix whose text the sub-pattern happens to repeat: Prefix(/a).URL(/a/{x}) is /a/a/{x}
+				if perr0 == nil && p0.Tokens[0].Kind == ref.Lit && len(p0.Tokens[0].Text) > 1 {
+					pre := p0.Tokens[0].Text
+					if pre[len(pre)-1] == '/' {
+						pre = pre[:len(pre)-1]
+					}
+					wantR := "error"
+					if pr, e := ref.Parse(pre+it.Pattern, ref.Interceptors{}); e == nil {
+						if x, ok := pr.Instantiate(ps); ok {
+							wantR = fmt.Sprintf("%q", d.dom+x)
+						}
+					}
+					pv, bad = Guard(func() { s, err = d.r.Prefix(pre).URL(false, it.Pattern, ps) })
+					out.Evals++
+					if got := res(s, err, pv, bad); got != wantR {
+						rep("C10.facade", "prefix-url-differs:repeated-prefix", fmt.Sprintf("%s via Prefix(%q).URL(%q) %s", d.name, pre, it.Pattern, label), got, wantR)
 					}
 				}
 				pv, bad = Guard(func() { s, err = d.r.Resource(it.Pattern).URL(false, ps) })
